@@ -148,8 +148,13 @@ class BehavioralRTLIRToVVisitorL2( BehavioralRTLIRToVVisitorL1 ):
     inc_op   = '-' if node.step._value < 0 else '+'
 
     step_abs = s.visit( node.step )
-    if node.step._value < 0 and step_abs[0] == '-':
-      step_abs = step_abs[1:]
+    if node.step._value < 0:
+      if step_abs[0] == '-':
+        step_abs = step_abs[1:]
+      else:
+        # The step is a negative constant, not a negated literal: its
+        # translation is a two's complement and not a magnitude
+        step_abs = str( -int( node.step._value ) )
 
     for stmt in node.body:
       body.extend( s.visit( stmt ) )
